@@ -147,7 +147,7 @@ var stories = []story{
 			dst := []uint32{s.cfg.selfIP, bcU}[r.Intn(2)]
 			var arp []arpResp
 			if r.Intn(3) == 0 {
-				arp = append(arp, arpResp{a.leased, []byte{2, 0xcc, 0, 0, 0, 9}, time.Duration(1+r.Intn(500)) * time.Millisecond, r.Intn(2) == 0, false})
+				arp = append(arp, arpResp{a.leased, []byte{2, 0xcc, 0, 0, 0, 9}, time.Duration(1+r.Intn(500)) * time.Millisecond, r.Intn(2) == 0, false, 0})
 			}
 			s.do(g, a, a.renewing(a.leased, dst, uint16(r.Intn(2))<<15), arp...)
 		}
@@ -238,6 +238,7 @@ func (s *srvRun) burst(pkts [][]byte, arp []arpResp, gapMs []int) []roundObs {
 		}
 	}
 	s.arp = map[uint32]arpResp{}
+	s.arpSeen = map[uint32]int{}
 	for _, a := range arp {
 		s.arp[a.ip] = a
 	}
@@ -343,7 +344,7 @@ func runOverlapHistory(t *testing.T, c *caseWriter, tags string, seedv int64) {
 			if r.Intn(3) == 0 {
 				v := g.clients[r.Intn(len(g.clients))]
 				if v.leased != 0 {
-					arp = append(arp, arpResp{v.leased, []byte{2, 0xcc, 0, 0, 0, 7}, time.Duration(1+r.Intn(500)) * time.Millisecond, false, false})
+					arp = append(arp, arpResp{v.leased, []byte{2, 0xcc, 0, 0, 0, 7}, time.Duration(1+r.Intn(500)) * time.Millisecond, false, false, 0})
 				}
 			}
 			rs := s.burst(pkts, arp, []int{0, 1, 7, 40, 150, 3})
